@@ -624,9 +624,10 @@ class World:
 
     @staticmethod
     def _brief(res: dict) -> str:
+        # never let object addresses into the event log (replay fingerprints are compared across processes)
         if "exc" in res:
-            return f"exception {type(res['exc']).__name__}: {str(res['exc'])[:120]}"
-        return f"value {str(res.get('ok'))[:120]}"
+            return re.sub(r"0x[0-9a-fA-F]+", "0x", f"exception {type(res['exc']).__name__}: {str(res['exc'])[:120]}")
+        return re.sub(r"0x[0-9a-fA-F]+", "0x", f"value {str(res.get('ok'))[:120]}")
 
     @staticmethod
     def _brief_args(prep: dict) -> str:
